@@ -1,0 +1,11 @@
+//go:build !verif
+
+package gcsemu
+
+import "time"
+
+// Verification seams; no-ops / forwards unless built with the "verif" tag.
+
+func simYield(string) {}
+
+func timeNow() time.Time { return time.Now() }
